@@ -385,6 +385,13 @@ class BufferedFile(ClosingContextManager):
             raise IOError("File is closed")
         if not (self._flags & self.FLAG_WRITE):
             raise IOError("File not open for writing")
+        if self._rbuffer and self.seekable():
+            # readline() and buffered read() fetch more than they return, so
+            # the real position is ahead of the position the caller sees.
+            # The data has to land at the caller's position, and whatever was
+            # read ahead is stale from now on.
+            self._realpos = self._pos
+            self._rbuffer = bytes()
         if not (self._flags & self.FLAG_BUFFERED):
             self._write_all(data)
             return
